@@ -27,6 +27,8 @@ Oracle (written from the statement; the message *text* is never interpreted, onl
      through the public visitor protocol, with its message), some span.error in the run of lines
      directly before or directly after the span.seg carrying that node's line number contains the
      message after unescaping, and the echoed offending value inside it has its < > & escaped.
+     Element errors of header/trailer segments (they hang on the ISA/GS/ST node) must be shown
+     somewhere; set/group/interchange-level errors are outside the statement.
 """
 from html.parser import HTMLParser
 from mc import core, corpus, ref, gen, c05
@@ -743,12 +745,14 @@ def run(R):
                    % (len(QUICK_MAPS + (MORE_MAPS if R.thorough else ())), len(DELIMS), DELIMS, PAYLOADS, FOREIGN, 6 if R.thorough else 3, 6 if R.thorough else 3, 6 if R.thorough else 3, 6 if R.thorough else 3),
     }
     R.assumptions = [
-        'documents on which validation raises are C07 matters and skipped here (counted)',
-        'a segment is rendered modulo the documented normalisation (trailing empty elements / components dropped, bare id written with one separator)',
+        'documents on which validation raises are C07 matters and skipped here (counted per exception site)',
+        'a segment line may show the segment as written or with trailing empty elements / components dropped (the documented normalisation); a bare id is written with one separator (pinned by the suite)',
         'line number = ordinal of the segment; when the source contains blank or empty pieces only "increasing" is demanded',
-        '"next to" = in the run of error lines directly before or directly after the segment line carrying the error node\'s line number',
-        'errors held at interchange / group / set level (not segment- or element-level) are outside the statement and not looked for (the element errors of ISA/IEA, GS/GE, ST/SE segments are, next to either of the two lines)',
-        'blanks and quotes may be written raw (they cannot introduce markup); < > & that came from the input may not',
-        'message text is compared as data (substring of the unescaped span text), never interpreted',
+        '"next to" = in the run of error lines directly before or directly after the segment line that carries the line number of the error node',
+        'an error the tree hangs on the segment preceding an SE/GE/IEA is also accepted next to that trailer (the reader\'s findings on a trailer are attributed to the previous node; counted as open)',
+        'element errors of ISA/IEA, GS/GE, ST/SE segments hang on the interchange/group/set node, which does not say on which of the two segments they were found: they must be shown somewhere in the report, their placement is not judged (counted as open)',
+        'errors held at interchange / group / set level (control numbers, counts, missing trailers) are neither segment- nor element-level and are not looked for (counted); the spans that show them must still be well formed and escaped',
+        'blanks and quotes may be written raw (they cannot introduce markup); < > & that came from the input (values, segment ids, delimiters, values echoed in messages) may not',
+        'message text is compared as data (substring of the unescaped span text), never interpreted; finding keys carry a source-derived qualifier (first / later interchange, envelopes not nesting)',
     ]
     return R.finish(LEVEL, 'one document per execution; distinct = (family, plan / fault kind / source / payload x delimiter set x placement)', exhaustive=True)
